@@ -127,6 +127,56 @@ fn bar_line(line: &str) -> String {
     })
 }
 
+/// String::from_utf8_lossy (what FancyState::task_output applies to a command's last output line)
+fn lossy_line(line: &str) -> String {
+    let b = unhex(line);
+    format!("ok {}", hex(String::from_utf8_lossy(&b).as_bytes()))
+}
+
+/// v=<0|1> then `;`-separated operations on the fancy console state:
+/// U w r q run d f | S id ms desc cmd | O id hex | F id desc cmd hide term hex | L hex | P ms cols
+/// (desc/cmd: hex, `-` empty, `~` absent)
+fn fancy_line(line: &str) -> String {
+    let line = line.to_string();
+    guarded(move || {
+        let (v, rest) = line.split_once(' ').unwrap_or((&line, ""));
+        let mut st = n2::verif::Fancy::new(v == "v=1");
+        let opt = |s: &str| if s == "~" { None } else { Some(raw_string(unhex(s))) };
+        let mut frames: Vec<String> = Vec::new();
+        for op in rest.split(';') {
+            let w = words(op);
+            if w.is_empty() {
+                continue;
+            }
+            match w[0] {
+                "U" => {
+                    let c: Vec<usize> = w[1..7].iter().map(|x| x.parse().unwrap()).collect();
+                    st.update([c[0], c[1], c[2], c[3], c[4], c[5]]);
+                }
+                "S" => st.task_started(w[1].parse().unwrap(), w[2].parse().unwrap(), opt(w[3]), opt(w[4])),
+                "O" => st.task_output(w[1].parse().unwrap(), unhex(w[2])),
+                "F" => st.task_finished(
+                    w[1].parse().unwrap(),
+                    opt(w[2]),
+                    opt(w[3]),
+                    w[4] == "1",
+                    w[5].parse().unwrap(),
+                    unhex(w[6]),
+                ),
+                "L" => st.log(&raw_string(unhex(w[1]))),
+                "P" => frames.push(hex(&st.print_progress(w[1].parse().unwrap(), w[2].parse().unwrap()))),
+                _ => panic!("bad op"),
+            }
+        }
+        format!(
+            "ok frames={} pending={} ids={}",
+            frames.join(","),
+            hex(&st.pending()),
+            st.task_ids().iter().map(|x| x.to_string()).collect::<Vec<_>>().join(",")
+        )
+    })
+}
+
 fn dedup_line(line: &str) -> String {
     // explicit id id id ...
     let w: Vec<usize> = words(line).iter().map(|x| x.parse().unwrap()).collect();
@@ -368,6 +418,8 @@ fn main() {
         "taskmsg" => taskmsg_line,
         "truncate" => truncate_line,
         "bar" => bar_line,
+        "fancy" => fancy_line,
+        "lossy" => lossy_line,
         "dedup" => dedup_line,
         "hist" => hist::hist_line,
         "db" => db_line,
